@@ -230,6 +230,8 @@ func counterLoop(bp *boundsProver, l *Loop, cb *ssa.BasicBlock, bo *ssa.BinOp) (
 				}
 				return true, "counter advances towards len() of a slice that is not reassigned inside the loop"
 			}
+		} else if !l.Blocks[b.Block()] {
+			return true, "counter advances towards a bound computed (by a call) before the loop"
 		}
 	default:
 		if in, ok := bound.(ssa.Instruction); ok && !l.Blocks[in.Block()] {
@@ -264,7 +266,7 @@ func consumerLoop(l *Loop, cb *ssa.BasicBlock, bo *ssa.BinOp) (string, bool) {
 	if !ok {
 		return "", false
 	}
-	if k, ok := constInt(bo.Y); !ok || k != 0 || (bo.Op != token.EQL && bo.Op != token.NEQ) {
+	if k, ok := constInt(bo.Y); !ok || !((k == 0 && (bo.Op == token.EQL || bo.Op == token.NEQ || bo.Op == token.GTR || bo.Op == token.LEQ)) || (k == 1 && (bo.Op == token.GEQ || bo.Op == token.LSS))) {
 		return "", false
 	}
 	ld, ok := lx.(*ssa.UnOp)
@@ -280,6 +282,12 @@ func consumerLoop(l *Loop, cb *ssa.BasicBlock, bo *ssa.BinOp) (string, bool) {
 		shrinks := false
 		for _, b := range path {
 			for _, in := range b.Instrs {
+				// a helper that takes the front element of this very list
+				if call, isCall := in.(*ssa.Call); isCall && len(call.Call.Args) > 0 && !call.Call.IsInvoke() {
+					if f, isTake := takeFrontHelper(call.Call.StaticCallee()); isTake && canon(call.Call.Args[0])+"."+f == cell {
+						shrinks = true
+					}
+				}
 				st, ok := in.(*ssa.Store)
 				if !ok || canon(st.Addr) != cell {
 					continue
